@@ -604,6 +604,41 @@ class C16(MsgProp):
 class C17(MsgProp):
     id = "C17"
 
+    def run(self, ctx):
+        extra = super().run(ctx)
+        if ctx.replay:
+            return extra
+        # 1029: more than 127 characters or 255 bytes is refused; otherwise the two count fields on the wire
+        # are the character count and the byte count (oracle on the answers of the real code)
+        ops = [l.strip() for l in open(os.path.join(ctx.wdir, "ops.txt")) if l.startswith("ENC 1029 ")]
+        fails = 0
+        for prof, exe in (("release", ctx.exe_release), ("relchk", ctx.exe_relchk)):
+            ans = ctx.run_all([exe], ops, 20.0)
+            for op, a in zip(ops, ans):
+                tok = op.split()[-1]
+                raw = b"" if tok == "b-" else bytes.fromhex(tok[1:])
+                try:
+                    nchars = len(raw.decode("utf-8"))
+                except UnicodeDecodeError:
+                    continue
+                if nchars > 127 or len(raw) > 255:
+                    ok = a.startswith("ERR")
+                    why = f"text of {nchars} characters / {len(raw)} bytes was not refused: {a[:40]}"
+                else:
+                    ok = not a.startswith("ERR") and a not in ("PANIC", "BAD-OP", "CRASH", "HANG")
+                    why = f"text of {nchars} characters / {len(raw)} bytes refused: {a[:40]}"
+                    if ok:
+                        p = bytes.fromhex(a)[3:-3]
+                        cc, bc = read_bits(p, 57, 7), read_bits(p, 64, 8)
+                        ok = cc == nchars and bc == len(raw) and p[9:9 + len(raw)] == raw
+                        why = f"count fields on the wire are {cc} characters / {bc} bytes for a text of {nchars} / {len(raw)}"
+                if not ok:
+                    fails += 1
+                    if len(ctx.violations) < 60:
+                        ctx.violations.append({"op": op[:3000], "profile": prof, "oracle": "FAIL C17 " + why})
+        ctx.cov["oracle_failures"] += fails
+        return extra
+
     def rule(self):
         return ("STR88591 / ASTR ops (string -> descriptor field / UTF-8 text field) for capacities {7,31,127,255} on "
                 "strings of ASCII, Latin-1 high half, NUL, 2/3/4-byte characters straddling the capacity, astral "
@@ -641,6 +676,17 @@ class C17(MsgProp):
             bits = int_bits(1029, 12) + int_bits(5, 12) + int_bits(1, 16) + int_bits(2, 17) + int_bits(len(txt), 7) + int_bits(len(body), 8)
             yield ("DEC " + hx(mk_frame(bits_to_bytes(bits) + body)), "valid-utf8-frame", True)
             yield ("DEC " + hx(mk_frame((bits_to_bytes(bits) + body)[:-1])), "truncated-utf8-frame", True)
+        # 1029 texts around the 127-character / 255-byte limits, with 1-, 2-, 3- and 4-byte characters
+        for chars, ch in ((127, "a"), (128, "a"), (127, "é"), (128, "é"), (85, "日"), (86, "日"), (63, "😀"), (64, "😀")):
+            for extra in ("", "a", "😀", "é"):
+                txt = (ch * chars + extra).encode()
+                if len(txt) <= 255:
+                    yield ("ENC 1029 i%d i%d i%d b%s" % (r.randrange(4096), r.randrange(65536), r.randrange(86400), hx(txt)), "text-limits", True)
+        for k in (1, 5, 20, 40):
+            txt = ("😀" * k + "a" * (128 - k)).encode()      # 128 characters, some of them astral
+            yield ("ENC 1029 i1 i2 i3 b%s" % hx(txt), "text-limits", True)
+            txt = ("😀" * k + "a" * (100 - k)).encode()
+            yield ("ENC 1029 i1 i2 i3 b%s" % hx(txt), "text-limits", True)
         # descriptor length above capacity in 1033 (5-bit and 8-bit length prefixes)
         for ln in (32, 33, 100, 255):
             bits = int_bits(1033, 12) + int_bits(7, 12) + int_bits(ln, 8) + [1, 0] * (4 * ln) + [0] * 64
